@@ -995,6 +995,11 @@ pub fn drive_with(
     let dgrams = index_tap(&cfg.planted, &tap);
     let log = std::mem::take(&mut *log.borrow_mut());
     let events = std::mem::take(&mut *events.borrow_mut());
+    // (idle sessions evicted while the workloads ran count as injected events)
+    let evicted = cfg.closes.iter().filter(|c| c.0 * 1000 <= end_time).count() as u64;
+    if evicted > 0 {
+        *fired.borrow_mut().entry("idle_session_evicted").or_default() += evicted;
+    }
     let fired = fired.borrow().clone();
     MrpRun {
         cfg,
